@@ -94,9 +94,17 @@ pub const SOURCES: [([u8; 4], u16); 4] = [
     ([1, 1, 1, 0], 1000),
 ];
 
+/// Sources beyond the four named ones (used to fill one info hash with more announcers than a
+/// reply can carry): one IP each.
+pub const N_SOURCES: usize = 32;
+
 pub fn src_addr(i: u8) -> SocketAddrV4 {
-    let (ip, port) = SOURCES[i as usize];
-    SocketAddrV4::new(Ipv4Addr::from(ip), port)
+    if (i as usize) < SOURCES.len() {
+        let (ip, port) = SOURCES[i as usize];
+        SocketAddrV4::new(Ipv4Addr::from(ip), port)
+    } else {
+        SocketAddrV4::new(Ipv4Addr::new(3, 3, 3, i), 3000 + i as u16)
+    }
 }
 
 fn requester_id(src: u8) -> Id20 {
@@ -741,7 +749,8 @@ impl SrvState {
         } else {
             out.add("writes_rejected", 1);
             if must_accept {
-                let prop = if code == Some(203) { token_prop } else { "C03" };
+                // a valid write refused with a seq/cas code is a statement about C04's rules
+                let prop = if code == Some(203) { token_prop } else if matches!(code, Some(301) | Some(302)) { "C04" } else { "C03" };
                 self.viol(out, prop, &format!("{what}/rejected-valid-write-e{}", code.unwrap_or(0)), format!("{what}: a valid, authorised write was rejected with {code:?}"), path);
             } else if unspecified && !has_payload_defect {
                 if !matches!(code, Some(203) | Some(301) | Some(302)) {
@@ -867,7 +876,15 @@ impl SrvState {
                     let (mut a, mut b) = (want.clone(), got.clone());
                     a.sort();
                     b.sort();
-                    if a != b {
+                    if want.len() >= 20 {
+                        // more announcers than a reply carries: any 1..=20 distinct accepted ones
+                        out.add("sampled_peer_replies", 1);
+                        out.outcomes.insert(format!("get_peers:sampled:{}of{}", got.len(), want.len()));
+                        let distinct = b.windows(2).all(|w| w[0] != w[1]);
+                        if got.is_empty() || got.len() > 20 || !distinct || !got.iter().all(|g| want.contains(g)) {
+                            st.viol(out, "C03", "get_peers/sampled-values", format!("get_peers returned {} values ({} accepted announces): must be 1..=20 distinct accepted ones; got {got:?}", got.len(), want.len()), path);
+                        }
+                    } else if a != b {
                         st.viol(out, "C03", "get_peers/values", format!("get_peers returned {got:?}, accepted announces are {want:?}"), path);
                     }
                 });
@@ -900,7 +917,15 @@ impl SrvState {
                         .unwrap_or_default();
                     want.sort();
                     got.sort();
-                    if want != got {
+                    // (signed announcements are 104 bytes each: a reply carries a sample of 10)
+                    if want.len() >= 10 {
+                        out.add("sampled_peer_replies", 1);
+                        out.outcomes.insert(format!("get_signed_peers:sampled:{}of{}", got.len(), want.len()));
+                        let distinct = got.windows(2).all(|w| w[0] != w[1]);
+                        if got.is_empty() || got.len() > 20 || !distinct || !got.iter().all(|g| want.contains(g)) {
+                            st.viol(out, "C03", "get_signed_peers/sampled-peers", format!("get_signed_peers returned {} records ({} accepted announcements): must be 1..=20 distinct accepted ones", got.len(), want.len()), path);
+                        }
+                    } else if want != got {
                         st.viol(out, "C03", "get_signed_peers/peers", format!("get_signed_peers returned {} records, accepted announcements are {}", got.len(), want.len()), path);
                     }
                 });
